@@ -153,6 +153,7 @@ func (r *reporter) report(sig, msg, replayPath string) {
 		return
 	}
 	r.violations++
+	violationsPrinted++
 	fmt.Printf("VIOLATION property=%s replay=%s\n", r.prop, replayPath)
 	fmt.Printf("  signature: %s\n  %s\n", sig, msg)
 }
